@@ -29,11 +29,15 @@ def rewrite_lines(
     found_patterns: typ.Set[Pattern] = set()
 
     new_lines = old_lines[:]
-    for match in parse.iter_matches(old_lines, patterns):
+    # apply right to left so that spans of earlier matches on a line stay valid
+    matches = list(parse.iter_matches(old_lines, patterns))
+    matches.sort(key=lambda m: (m.lineno, m.span), reverse=True)
+    for match in matches:
         found_patterns.add(match.pattern)
         replacement = v1version.format_version(new_vinfo, match.pattern.raw_pattern)
         span_l, span_r = match.span
-        new_line = match.line[:span_l] + replacement + match.line[span_r:]
+        cur_line = new_lines[match.lineno]
+        new_line = cur_line[:span_l] + replacement + cur_line[span_r:]
         new_lines[match.lineno] = new_line
 
     non_matched_patterns = set(patterns) - found_patterns
